@@ -142,7 +142,11 @@ impl<T: Qcow2IoOps> Qcow2Dev<T> {
         //todo: write all dirty refcount_block
 
         grown_rt.set_refblock_offset(reftable.entries(), refblock_offset);
-        self.flush_top_table(grown_rt).await?;
+
+        // The table moves to a new place, so all of it has to be written
+        // there, not only the blocks dirtied since the last flush.
+        self.flush_table(grown_rt, 0, grown_rt.byte_size()).await?;
+        while grown_rt.pop_dirty_blk_idx(None).is_some() {}
 
         // write header
         {
@@ -375,7 +379,11 @@ impl<T: Qcow2IoOps> Qcow2Dev<T> {
         if !reftable.in_bounds(rt_index) {
             #[cfg(qcow2_rs_verif)]
             crate::verif::probe("grow:reftable");
-            let mut grown_rt = reftable.clone_and_grow(rt_index, rt_clusters, info.cluster_size());
+            let mut grown_rt = reftable.clone_and_grow(
+                rt_clusters,
+                info.cluster_size(),
+                1 << info.block_size_shift,
+            );
             if !grown_rt.is_update() {
                 old_reftable = Some(self.grow_reftable(&reftable, &mut grown_rt).await?);
             }
